@@ -10,19 +10,22 @@ package gen
 //   - [][]byte as a parameter, as a `var r [][]byte`, as `[][]byte{a, b}`, and in `for i, part := range parts`.
 //   - `[]int{c1, ..., ck}` as a `list Z`.
 //   - Go strings as the bytes they hold (kind fkString, Gallina type `bytes`): string constants are printed as explicit
-//     byte lists (UTF-8, the bytes go/constant holds).  Only constants, results and comparisons-free uses; `[]byte(s)`
-//     and `string(b)` are the identity (a copy).
-//   - `*s = e` for a pointer-to-named-byte-slice receiver whose target is in the declared state (`*s`).
-//   - the trusted mappings of lib/GoScript.v: bytes.Contains -> go_bytes_contains; hex.DecodeString of a CONSTANT
-//     string, evaluated by the translator (a constant with an odd length or a non-hex digit makes the function
-//     untranslated).
+//     byte lists (UTF-8, the bytes go/constant holds).  Only constants and results: conversions, comparisons and
+//     concatenations of strings are refused.
+//   - `*s = e` for a pointer-to-named-byte-slice receiver whose target is in the declared state (`*s`): the target is a
+//     parameter of the printed definition and is returned with the results (funcs_interp.go: STATE).
+//   - a lookup in a package-level map (`opCodeValues[o]`) as an argument of an error constructor is left out: the
+//     message is not modelled and a map lookup cannot panic.
+//
+// No trusted mapping is added: everything these functions call is itself printed (PushDataPrefix, EncodeParts,
+// DecodeParts, IsData, IsP2PKH, isSmallIntOp, ...).
 
 import (
-	"encoding/hex"
 	"fmt"
 	"go/ast"
 	"go/constant"
 	"go/token"
+	"go/types"
 	"strings"
 )
 
@@ -39,6 +42,10 @@ var fnScriptList = []fnSpec{
 	{Coq: "Script_IsP2PKHInscription", File: fnScriptFile, Recv: "Script", Name: "IsP2PKHInscription", Fields: []string{"*s"}, Props: []string{"C14", "C20"}},
 	{Coq: "Script_ScriptType", File: fnScriptFile, Recv: "Script", Name: "ScriptType", Fields: []string{"*s"}, Props: []string{"C14", "C16"}},
 	{Coq: "Script_PublicKeyHash", File: fnScriptFile, Recv: "Script", Name: "PublicKeyHash", Props: []string{"C14", "C16"}},
+	// the script builders: the receiver's target is state (`*s = append(*s, ...)`)
+	{Coq: "Script_AppendPushData", File: fnScriptFile, Recv: "Script", Name: "AppendPushData", State: []string{"*s"}, Props: []string{"C20"}},
+	{Coq: "Script_AppendPushDataArray", File: fnScriptFile, Recv: "Script", Name: "AppendPushDataArray", State: []string{"*s"}, Props: []string{"C20"}},
+	{Coq: "Script_AppendOpcodes", File: fnScriptFile, Recv: "Script", Name: "AppendOpcodes", State: []string{"*s"}, Props: []string{"C20"}},
 }
 
 func init() { fnList = append(fnList, fnScriptList...) }
@@ -194,19 +201,32 @@ func (t *fnTr) whileLen(x *ast.ForStmt, k func() string) (string, bool) {
 	return head + t.afterLoop(loop, state, k), true
 }
 
-// hexConst: hex.DecodeString("<constant>") as the pair (bytes, error) it certainly returns.
-func (t *fnTr) hexConst(c *ast.CallExpr) (string, bool) {
-	p, ns, ok := t.pkgSel(c.Fun)
-	if !ok || p != "encoding/hex" || len(ns) != 1 || ns[0] != "DecodeString" || len(c.Args) != 1 {
-		return "", false
+// isDerefTarget: `*s` as the target of an assignment, for a declared state path.
+func (t *fnTr) isDerefTarget(e ast.Expr) bool {
+	if _, ok := e.(*ast.StarExpr); !ok {
+		return false
 	}
-	tv, ok := t.pkg.info.Types[c.Args[0]]
-	if !ok || tv.Value == nil || tv.Value.Kind() != constant.String {
-		t.fail(c, "hex.DecodeString of something other than a constant")
+	p, ok := t.fieldPath(e)
+	return ok && t.isState(p)
+}
+
+// isTableLookup: <package-level map>[v] for a variable v, an argument of an error message: a map lookup does not panic.
+func (t *fnTr) isTableLookup(e ast.Expr) bool {
+	ix, ok := e.(*ast.IndexExpr)
+	if !ok {
+		return false
 	}
-	b, err := hex.DecodeString(constant.StringVal(tv.Value))
-	if err != nil {
-		t.fail(c, "hex.DecodeString of a constant that is not a hex string")
+	id, ok := ix.X.(*ast.Ident)
+	if !ok {
+		return false
 	}
-	return fnByteList(b), true
+	v, ok := t.pkg.info.Uses[id].(*types.Var)
+	if !ok || v.Parent() != t.pkg.pkg.Scope() {
+		return false
+	}
+	if _, isMap := v.Type().Underlying().(*types.Map); !isMap {
+		return false
+	}
+	_, isPath := t.fieldPath(ix.Index)
+	return isPath
 }
